@@ -24,7 +24,7 @@ struct MapSettle {
         } else {
             size_t hit = ok.size(); for (size_t i = ok.size(); i-- > 0;) if (ok[i] == S) { hit = i; break; }
             if (hit == ok.size()) { R.corrupt("state", std::string(which) + " is " + show(S) + "; before " + show(model) + ", intended " + show(ok.back())); R.res.count("fault-state:unacceptable"); }
-            else R.res.count(std::string("fault-state:") + (hit + 1 == ok.size() ? (S == model ? "noop" : "full") : hit == 0 ? "none" : "prefix"));
+            else if (which[0] == 'A') R.res.count(std::string("fault-state:") + (hit + 1 == ok.size() ? (S == model ? "noop" : "full") : hit == 0 ? "none" : "prefix"));
         }
         model = S;
     }
@@ -52,24 +52,24 @@ template <class KE, class VE> struct MapRun {
         IM r; size_t cnt = 0;
         for (typename Base::const_iterator it = m.begin(); it != m.end(); ++it) {
             const int k = KE::id((*it).first), v = VE::id(it->second);
-            if (!r.insert(std::make_pair(k, v)).second) R.bad("duplicate-key", std::string(which) + " iterates key " + std::to_string(k) + " twice");
+            if (!r.insert(std::make_pair(k, v)).second) R.inconsistent("duplicate-key", std::string(which) + " iterates key " + std::to_string(k) + " twice");
             if (++cnt > 100000) break;
         }
         return r;
     }
     void verify(M& m, const IM& model, const char* which, int extraKey) {
         const Base& cm = m; const std::string w = which;
-        if (cm.size() != model.size()) { R.bad("size", w + ".size()=" + std::to_string(cm.size()) + " but iteration gives " + std::to_string(model.size()) + " distinct keys"); R.stop = true; return; }
-        if (cm.empty() != model.empty()) R.bad("empty", w + ".empty() disagrees with size()");
+        if (cm.size() != model.size()) { R.inconsistent("size", w + ".size()=" + std::to_string(cm.size()) + " but iteration gives " + std::to_string(model.size()) + " distinct keys"); R.stop = true; return; }
+        if (cm.empty() != model.empty()) R.inconsistent("empty", w + ".empty() disagrees with size()");
         std::set<int> keys; for (int k = 0; k < 12; ++k) keys.insert(k); for (auto& kv : model) keys.insert(kv.first); if (extraKey >= 0) keys.insert(extraKey);
         bool flip = false;
         for (int k : keys) {
             KVal kx(k, R.mm); IM::const_iterator mi = model.find(k); flip = !flip;
             bool found; int v = 0;
-            if (flip) { typename Base::const_iterator it = cm.find(kx.x); found = it != cm.end(); if (found) { v = VE::id((*it).second); if (KE::id(it->first) != k) R.bad("find-key", w + ".find(" + std::to_string(k) + ") points at key " + std::to_string(KE::id(it->first))); } }
+            if (flip) { typename Base::const_iterator it = cm.find(kx.x); found = it != cm.end(); if (found) { v = VE::id((*it).second); if (KE::id(it->first) != k) R.inconsistent("find-key", w + ".find(" + std::to_string(k) + ") points at key " + std::to_string(KE::id(it->first))); } }
             else { typename Base::iterator it = m.find(kx.x); found = it != m.end(); if (found) v = VE::id(it->second); }
-            if (found != (mi != model.end())) { R.bad("find", w + ".find(" + std::to_string(k) + ") " + (found ? "finds a key that iteration does not show" : "misses a key that iteration shows")); break; }
-            if (found && v != mi->second) { R.bad("find-value", w + ".find(" + std::to_string(k) + ")->second is " + std::to_string(v) + ", iteration gave " + std::to_string(mi->second)); break; }
+            if (found != (mi != model.end())) { R.inconsistent("find", w + ".find(" + std::to_string(k) + ") " + (found ? "finds a key that iteration does not show" : "misses a key that iteration shows")); break; }
+            if (found && v != mi->second) { R.inconsistent("find-value", w + ".find(" + std::to_string(k) + ")->second is " + std::to_string(v) + ", iteration gave " + std::to_string(mi->second)); break; }
         }
     }
     std::string stateOf(const M& m, double lf) const {
@@ -191,20 +191,20 @@ template <class E> struct SetRun {
         IM r; size_t cnt = 0;
         for (typename S_::const_iterator it = s.begin(); it != s.end(); ++it) {
             const int k = E::id(*it);
-            if (!r.insert(std::make_pair(k, 1)).second) R.bad("duplicate-key", std::string(which) + " iterates key " + std::to_string(k) + " twice");
+            if (!r.insert(std::make_pair(k, 1)).second) R.inconsistent("duplicate-key", std::string(which) + " iterates key " + std::to_string(k) + " twice");
             if (++cnt > 100000) break;
         }
         return r;
     }
     void verify(const S_& s, const IM& model, const char* which, int extraKey) {
         const std::string w = which;
-        if (s.size() != model.size()) { R.bad("size", w + ".size()=" + std::to_string(s.size()) + " but iteration gives " + std::to_string(model.size())); R.stop = true; return; }
+        if (s.size() != model.size()) { R.inconsistent("size", w + ".size()=" + std::to_string(s.size()) + " but iteration gives " + std::to_string(model.size())); R.stop = true; return; }
         std::set<int> keys; for (int k = 0; k < 12; ++k) keys.insert(k); for (auto& kv : model) keys.insert(kv.first); if (extraKey >= 0) keys.insert(extraKey);
         for (int k : keys) {
             Val kx(k, R.mm); const bool want = model.count(k) != 0;
             typename S_::const_iterator it = s.find(kx.x); const bool found = it != s.end();
-            if (found != want || s.count(kx.x) != (want ? 1u : 0u)) { R.bad("find", w + ".find/count(" + std::to_string(k) + ") disagree with iteration"); break; }
-            if (found && E::id(*it) != k) { R.bad("find-key", w + ".find(" + std::to_string(k) + ") points at " + std::to_string(E::id(*it))); break; }
+            if (found != want || s.count(kx.x) != (want ? 1u : 0u)) { R.inconsistent("find", w + ".find/count(" + std::to_string(k) + ") disagree with iteration"); break; }
+            if (found && E::id(*it) != k) { R.inconsistent("find-key", w + ".find(" + std::to_string(k) + ") points at " + std::to_string(E::id(*it))); break; }
         }
     }
     void after(const std::vector<IM>& okA, int extraKey = -1, const std::vector<IM>* okB = 0) {
